@@ -142,6 +142,26 @@ fn c20_order_by_slices() -> i32 {
             Err(e) => bad.push(e),
         }
     }
+    // two keys where the first ties in Cypher's order without being the same value (1 and 1.0): the second key decides
+    let ties: Vec<(K, K)> = vec![(K::I(1), K::S("b")), (K::F(1.0), K::S("a")), (K::I(0), K::S("z")), (K::F(0.0), K::S("y")), (K::I(1), K::S("c")), (K::F(2.0), K::S("q")), (K::I(2), K::S("p"))];
+    let tlist = format!("[{}]", ties.iter().map(|(a, b)| format!("{{a: {}, b: {}}}", klit(a), klit(b))).collect::<Vec<_>>().join(", "));
+    for (d1, d2) in [(false, false), (false, true), (true, false)] {
+        let mut want = ties.clone();
+        want.sort_by(|x, y| { let o = kcmp(&x.0, &y.0); let o = if d1 { o.reverse() } else { o }; if o != std::cmp::Ordering::Equal { return o; } let p = kcmp(&x.1, &y.1); if d2 { p.reverse() } else { p } });
+        for (skip, limit) in [(0usize, 7usize), (1, 3), (2, 2)] {
+            let q = format!("UNWIND {tlist} AS m RETURN m.a AS a, m.b AS b ORDER BY a{}, b{} SKIP {skip} LIMIT {limit}", if d1 { " DESC" } else { "" }, if d2 { " DESC" } else { "" });
+            n += 1;
+            match run(&db, &q) {
+                Ok(rows) => {
+                    let exp: Vec<&K> = want.iter().skip(skip).take(limit).map(|(_, b)| b).collect();
+                    if rows.len() != exp.len() || rows.iter().zip(exp.iter()).any(|(r, b)| !same(&r[1], b)) {
+                        bad.push(format!("`{q}` returned {:?}, expected {:?}", rows.iter().map(|r| r[1].clone()).collect::<Vec<_>>(), exp));
+                    }
+                }
+                Err(e) => bad.push(e),
+            }
+        }
+    }
     drop(db);
     let _ = std::fs::remove_dir_all(&d);
     if bad.is_empty() { println!("conforms: {n} ORDER BY / SKIP / LIMIT queries agree with the reference sort"); 0 }
